@@ -83,6 +83,11 @@ CHECKS = {
          "For both start-up script builders (container builder; SSH builder through the verif export hook) every value is configured alone and next to a second variable, the generated script plus NUL-terminated printf lines is fed to /bin/sh on stdin in an empty directory; the shell must print every variable verbatim (up to trailing newlines), exit 0 and leave the directory empty although `a` is a real command that drops a canary file. Every name over 10 symbols accepted by Set/SetAll must be a plain identifier.",
          "dash as /bin/sh of this image; no SSH/container engine involved; symbol bound as stated.",
          "DESIGN.md 3/C18"),
+ "C19": ("model_checking",
+         "exhaustive enumeration of request sequences x configurations against a reference renderer (html/template, text/template); preemption-bounded schedule exploration (happens-before cache) of concurrent first requests with a vector-clock race oracle on the providers' cache maps",
+         "All 819 sequences of <=3 requests (Base, Layout, View incl. default-layout and missing-view spellings) for both providers, helpers present/absent, cached and uncached: every returned template is rendered and compared (output and defined-name set) with a reference built directly on the standard library, cached and uncached outputs must agree position by position. 36 concurrent programs (2-3 threads, first requests for the same/different views, view+layout, base+view) under every schedule within the bound: all callers render like the reference, no error, no unordered conflicting access to the cache maps (how 'no call crashes the process' is decided deterministically).",
+         "One file set with overlapping definitions on all layers; word-sized cache fields are outside the race oracle; bounds as reported.",
+         "DESIGN.md 3/C19"),
  "C20": ("exploration",
          "exhaustive bounded enumeration of nested maps, JSON documents (every leaf string up to 2/3 symbols in every spelling) and flat maps against encoding/json; bounded-preemption schedule exploration of the concurrent loader",
          "Flatten/rebuild inverse laws on all nested maps (3 keys, depth<=3, <=3/4 leaves); JSON reading compared with encoding/json on 4 document shapes x every leaf string over 8 JSON-significant symbols incl. escaped spellings, numbers and skipped leaf kinds; JSON writing (compact and formatted) must be valid for encoding/json, denote the same map and round-trip, for every value string over 10 symbols; the translation loader is explored under every schedule with <=1-3 preemptions on 8 directory layouts.",
